@@ -97,7 +97,7 @@ def decorate(rng, case):
         links[os.path.join(os.path.dirname(target), lname)] = nm
         done = False
         for rel, body in ac["files"].items():
-            if rel.endswith(".c"):
+            if not rel.endswith(".h"):
                 for it in body:
                     if it[0] == "include" and it[1] in ("q", "a") and it[2] == nm and not done:
                         it[2] = lname
